@@ -26,6 +26,78 @@ from .arrayhist import Boom as _Boom, Interrupt as _Interrupt, failing_iterable 
 # C09
 # =============================================================================
 
+class _Watch:
+    """What the iterable handed to Darr sees: every time Darr asks for the next item (or the iterable raises / ends)
+    the sizes of the watched files are recorded.  From the last record the oracle derives how many chunks were
+    *completely appended before the failure* - whatever Darr's internal strategy (write as consumed, validate first,
+    buffer, skip empty writes) - instead of assuming one strategy."""
+
+    def __init__(self, files):
+        self.files = files
+        self.last = None          # sizes at the last request
+        self.handed = 0           # items handed out in the current pass
+        self.exhausted = False
+
+    def note(self):
+        try:
+            self.last = tuple(os.path.getsize(p) for p in self.files)
+        except OSError:
+            self.last = None
+
+
+def _watched_gen(objs, raise_at, exc, watch):
+    watch.handed = 0
+    for j, o in enumerate(objs):
+        watch.note()
+        if raise_at is not None and j == raise_at:
+            raise exc('iterable failed (injected)')
+        watch.handed = j + 1
+        yield o
+    watch.note()
+    if raise_at is not None and raise_at >= len(objs):
+        raise exc('iterable failed (injected)')
+    watch.exhausted = True
+
+
+class _WatchedList(list):
+    """a real list (so a Darr that treats sequences specially still does), whose iteration is watched"""
+    _watch = None
+
+    def __iter__(self):
+        return _watched_gen(list(list.__iter__(self)), None, None, self._watch)
+
+
+def _watched(objs, how, raise_at, exc, watch):
+    if raise_at is None and how == 'list':
+        wl = _WatchedList(objs)
+        wl._watch = watch
+        return wl
+    if raise_at is None and how == 'tuple':
+        return tuple(objs)
+    return _watched_gen(objs, raise_at, exc, watch)
+
+
+def _prefix_range(watch, single, raised, iter_pos, fit_j, n, complete_at):
+    """[lo, hi]: how many of the n chunks may remain after a failed call.  lo = those that were completely on disk
+    when Darr last asked the iterable for an item (complete_at(sizes) -> count); hi = the items before the failing
+    one: iter_pos for a fault of the iterable itself, else the items handed out minus the one being written, and
+    never more than fit below an injected size limit (fit_j)."""
+    if single:
+        return 0, 0
+    lo = 0
+    if watch is not None and watch.last is not None:
+        lo = complete_at(watch.last)
+    if iter_pos is not None:
+        hi = iter_pos
+    elif watch is not None and (watch.handed or watch.exhausted):
+        hi = n - 1 if watch.exhausted else max(watch.handed - 1, 0)
+    else:
+        hi = n - 1
+    if fit_j is not None:
+        hi = min(hi, fit_j)
+    return min(lo, hi), max(hi, 0)
+
+
 class ArrayAppendFault(AH.ArrayHistory):
     prop = 'C09'
     level = 'fault_enumeration'
@@ -285,6 +357,7 @@ class _FState(AH._State):
                 expect_j, must_raise = j, True
         how = op.get('as', 'list')
         single = op['call'] == 'append'
+        watch = None
         if single:
             arg = objs[0] if objs else np.zeros((0,) + m.shape[1:], dtype=m.dtype)
             if not objs:
@@ -292,7 +365,8 @@ class _FState(AH._State):
                 expect_j = 1 if not must_raise else expect_j
             call = lambda: self.h.append(arg)   # noqa
         else:
-            it = _iterable(objs, how, raise_at, _Interrupt if f.get('base') else _Boom)
+            watch = _Watch([datafile])
+            it = _watched(objs, how, raise_at, _Interrupt if f.get('base') else _Boom, watch)
             if raise_at is not None and f.get('base'):
                 self.probe('iterable_raised_non_Exception')
             call = lambda: self.h.iterappend(it)   # noqa
@@ -334,6 +408,17 @@ class _FState(AH._State):
         tag = f'{kind}:{"empty" if start_empty else "nonempty"}'
         if expect_j == 0 and start_empty:
             self.probe('fault_in_first_chunk_of_empty_array')
+        # ---- which whole-chunk prefixes may remain: "the chunks that were completely appended before the failure"
+        lo = hi = expect_j
+        if must_raise and exc is not None:
+            def complete_at(sz):
+                size = sz[0]
+                eq = [k for k in range(len(cum)) if cum[k] == size]
+                return eq[0] if eq else max([k for k in range(len(cum)) if cum[k] < size] or [0])
+            lo, hi = _prefix_range(watch, single, True, pos if kind in ITER_FAULTS else None,
+                                   expect_j if limit is not None else None, len(exps), complete_at)
+            if (lo, hi) != (expect_j, expect_j):
+                self.probe('completed_chunks_observed_differ_from_write_as_consumed')
         expected = np.concatenate([m] + exps[:expect_j]).astype(m.dtype, copy=False) if expect_j else m
         # ---- oracle
         if must_raise and exc is None:
@@ -365,12 +450,21 @@ class _FState(AH._State):
         ok, why = D.arr_equal(got, expected)
         if not ok:
             cls = 'wrong'
+            matches = []
             for jj in range(len(exps) + 1):
                 alt = np.concatenate([m] + exps[:jj]).astype(m.dtype, copy=False) if jj else m
                 if D.arr_equal(got, alt)[0]:
-                    cls = f'has_{"more" if jj > expect_j else "fewer"}_chunks'
-                    break
-            raise Viol('fault.contents', f'{tag}:{cls}', f'expected {expect_j} chunks; {why}; got shape {got.shape}')
+                    matches.append(jj)
+            inrange = [jj for jj in matches if lo <= jj <= hi]
+            if inrange:
+                # another whole-chunk prefix that is consistent with what was on disk when the failure happened
+                expect_j = inrange[-1]
+                expected = np.concatenate([m] + exps[:expect_j]).astype(m.dtype, copy=False) if expect_j else m
+                ok = True
+            elif matches:
+                cls = f'has_{"more" if matches[0] > hi else "fewer"}_chunks'
+        if not ok:
+            raise Viol('fault.contents', f'{tag}:{cls}', f'expected {lo}..{hi} chunks; {why}; got shape {got.shape}')
         ok, why = D.arr_equal(dec, expected)
         if not ok:
             raise Viol('fault.decoder_contents', tag, why)
@@ -686,6 +780,7 @@ class _RFState(RH._RState):
                 plan = SeamPlan(which, j, min(nb, sz))
                 expect_j, must_raise = j, True
         single = op['call'] == 'append'
+        watch = None
         if single:
             arg = objs[0] if objs else np.zeros((0,) + self.atom, dtype=self.dtype)
             if not objs:
@@ -694,7 +789,8 @@ class _RFState(RH._RState):
                     expect_j = 1
             call = lambda: self.h.append(arg)   # noqa
         else:
-            it = _iterable(objs, op.get('as', 'list'), raise_at, _Interrupt if f.get('base') else _Boom)
+            watch = _Watch([vfile, ifile])
+            it = _watched(objs, op.get('as', 'list'), raise_at, _Interrupt if f.get('base') else _Boom, watch)
             if raise_at is not None and f.get('base'):
                 self.probe('iterable_raised_non_Exception')
             call = lambda: self.h.iterappend(it)   # noqa
@@ -726,6 +822,22 @@ class _RFState(RH._RState):
         if limit is not None and not must_raise:
             self.probe('efbig_not_reached')
         tag = f'{kind}:{"empty" if not self.L else "nonempty"}'
+        # ---- which prefixes of whole subarrays may remain: "those completely appended before the failure" = values and
+        # index row on disk when Darr last asked the iterable for an item (see _Watch), up to the item before the failing one
+        lo = hi = expect_j
+        if must_raise and exc is not None:
+            def complete_at(sz):
+                rows = max(0, (sz[1] - ibase) // irow) if irow else 0
+                vdone = 0
+                for k in range(len(vsizes) + 1):
+                    if vbase + sum(vsizes[:k]) <= sz[0]:
+                        vdone = k
+                return min(rows, vdone, len(exps))
+            iter_pos = pos if (kind in ITER_FAULTS or kind == 'index_overflow') else None
+            lo, hi = _prefix_range(watch, single, True, iter_pos, expect_j if limit is not None else None,
+                                   len(exps), complete_at)
+            if (lo, hi) != (expect_j, expect_j):
+                self.probe('completed_subarrays_observed_differ_from_write_as_consumed')
         expected = self.L + exps[:expect_j]
         if must_raise and exc is None:
             raise Viol('fault.no_exception', tag, f'expected failure after {expect_j} of {len(exps)} items')
@@ -749,9 +861,13 @@ class _RFState(RH._RState):
             subs, v, i, top = decode_ragged_dir(self.path)
         except DecodeError as e:
             raise Viol('fault.decoder', f'{tag}:{str(e).split(":")[0]}', str(e))
+        if len(fresh) != len(expected) and lo <= len(fresh) - len(self.L) <= hi:
+            # another prefix of whole subarrays that is consistent with what was on disk when the failure happened
+            expect_j = len(fresh) - len(self.L)
+            expected = self.L + exps[:expect_j]
         if len(fresh) != len(expected) or len(subs) != len(expected):
-            cls = 'more' if len(fresh) > len(expected) else 'fewer'
-            raise Viol('fault.contents', f'{tag}:has_{cls}_subarrays', f'{len(fresh)} != {len(expected)}')
+            cls = 'more' if len(fresh) > len(self.L) + hi else 'fewer'
+            raise Viol('fault.contents', f'{tag}:has_{cls}_subarrays', f'{len(fresh)} != {len(self.L)}+[{lo}..{hi}]')
         for k, e in enumerate(expected):
             ok, why = D.arr_equal(subs[k], e)
             if not ok:
